@@ -220,6 +220,29 @@ def step (line : String) : String :=
     let toks := Disp.refresh (w.toNat?.getD 80) [62, 32] [9492, 32] (prevRow.toNat?.getD 0) (pp == "1") (parseNats l) (pos.toNat?.getD 0)
     let cc := Disp.coordsCursor (w.toNat?.getD 80) (parseNats l) (pos.toNat?.getD 0) 2
     s!"{cc.2} " ++ " ".intercalate (toks.map Disp.showTk)
+  | ["refresh2", w, la, pa, lb, pb] =>
+    -- the redisplay of buffer B over the frame of buffer A (prompt "> " on row 0): its tokens, then the
+    -- cursor and the screen of the terminal model after the whole session (initial prompt, the redisplay
+    -- of the empty buffer, of A, of B)
+    let wd := w.toNat?.getD 80
+    let prompt : List Nat := [62, 32]
+    let sec : List Nat := [9492, 32]
+    let a := parseNats la
+    let b := parseNats lb
+    let posA := pa.toNat?.getD 0
+    let posB := pb.toNat?.getD 0
+    let rowA := (Disp.coordsCursor wd a posA 2).2
+    let t0 : Term := { w := wd, cell := fun _ _ => 32, x := 0, y := 0, pw := false }
+    let toks0 := [Disp.Tk.text prompt] ++ Disp.refresh wd prompt sec 0 true [] 0
+    let toksA := Disp.refresh wd prompt sec 0 false a posA
+    let toksB := Disp.refresh wd prompt sec rowA false b posB
+    let t := ((t0.run toks0).run toksA).run toksB
+    let rows := (List.range 60).map fun r => (List.range wd).map fun c => t.cell r c
+    let trimmed := rows.map fun row => (row.reverse.dropWhile (· == 32)).reverse
+    let lastNon := (trimmed.zipIdx.filter fun (row, _) => !row.isEmpty).map (·.2)
+    let n := match lastNon.getLast? with | some i => i + 1 | none => 0
+    let scr := "/".intercalate ((trimmed.take n).map showNats)
+    " ".intercalate (toksB.map Disp.showTk ++ [s!"XY:{t.nx},{t.ny}", s!"SCR:{scr}"])
   | ["comp", l, cp, v] =>
     let line := parseNats l
     let cpos : Int := cp.toInt?.getD 0
